@@ -114,7 +114,10 @@ def _cases(draw, tier):
         if draw(st.booleans()):
             lines.append(('use', draw(_use(names, looks, shadow_only=None))))
     lines.append(('use', draw(_use(names, looks, shadow_only=None))))
-    return {'layer': 'cli', 'syms': syms, 'order': names, 'srcs': srcs, 'dup': dup, 'looks': looks, 'shadow': shadow,
+    empty = None
+    if draw(st.integers(0, 3)) == 0 and not cyc:
+        empty = {'name': 'EMPTYSYM', 'src': draw(st.sampled_from(['config', 'cli', 'define']))}
+    return {'layer': 'cli', 'empty': empty, 'syms': syms, 'order': names, 'srcs': srcs, 'dup': dup, 'looks': looks, 'shadow': shadow,
             'lines': lines, 'cycle': cyc}
 
 
@@ -217,6 +220,11 @@ def execute(case, ctx):
         elif where == 'cli':
             argv_syms += ['-D', f'{n}=1']
             expect_reject = True
+    empty = case.get('empty')
+    if empty and empty['src'] == 'config':
+        conf.append({'name': empty['name']})
+    if empty and empty['src'] == 'cli':
+        argv_syms += ['-D', empty['name']]
     if conf:
         cfg['predefined'] = {'symbols': conf}
     consts = {w: 100 + i for i, w in enumerate(case['looks'])}
@@ -254,6 +262,12 @@ def execute(case, ctx):
             except Cycle:
                 expect_reject = True
                 cyc_used = True
+    if empty and not expect_reject:
+        if empty['src'] == 'define':
+            src.append('#define ' + empty['name'])
+        # a symbol without replacement text simply disappears from the line
+        src.append('.byte 7, 8 ' + empty['name'])
+        want += bytes([7, 8])
     files = {'isa.json': json.dumps(cfg), 'main.asm': '\n'.join(src) + '\n'}
     argv = ['compile', '-c', 'isa.json', '-o', 'out.bin'] + argv_syms + ['main.asm']
     res = runner.run_forked(argv, files)
@@ -270,5 +284,6 @@ def execute(case, ctx):
         findings.append(Finding('C09/wrong-substitution/system', detail))
     nt = True
     classes = ['layer:cli', 'outcome:' + res.klass] + (['use-before-define'] if use_before else []) + \
-              (['duplicate'] if dup else []) + (['cycle-used'] if cyc_used else []) + ['src:' + s for s in sorted(set(srcs.values()))]
+              (['duplicate'] if dup else []) + (['cycle-used'] if cyc_used else []) + ['src:' + s for s in sorted(set(srcs.values()))] + \
+              (['empty-symbol-from-' + empty['src']] if empty else [])
     return Outcome(findings, nt, classes, 1, sample={'source': files['main.asm'], 'argv': argv, 'expected': detail['expected']})
